@@ -289,8 +289,8 @@ impl ServerHello {
     }
 
     pub fn decode(buf: &mut Bytes) -> Result<Self> {
-        if buf.len() < 34 {
-            // Version(2) + Random(32)
+        if buf.len() < 35 {
+            // Version(2) + Random(32) + session_id length(1)
             bail!("ServerHello too short");
         }
 
